@@ -3,6 +3,7 @@
 mod cluster_io;
 mod explore;
 mod fam_clusterauth;
+mod fam_decode;
 mod fam_framing;
 mod fam_lifecycle;
 mod fam_mailbox;
@@ -61,6 +62,7 @@ fn main() {
         fam_lifecycle::dispatch,
         fam_framing::dispatch,
         fam_clusterauth::dispatch,
+        fam_decode::dispatch,
     ];
     for f in fams {
         if let Some(summary) = f(&cmd, &a) {
